@@ -263,6 +263,13 @@ func runEvolution(r *evid.Run, dir string, cs int64) {
 	params := wh.Params(5)
 	ch := fakechain.New(params)
 	ch.Style = rg.Intn(2)
+	// The wallet's rebroadcast goroutine offers its unconfirmed transactions to the
+	// backend at times of its own choosing; an "already confirmed" answer makes it
+	// drop the transaction, and that answer can be stale by the time it is acted on
+	// when a reorg follows at once (which these histories do all the time).  C15 is
+	// about notifications, not broadcast answers (C20 is): every hand-over gets the
+	// neutral answer "already in mempool", which changes nothing in the wallet.
+	ch.SendHook = func(*wire.MsgTx) error { return chain.ErrTxAlreadyInMempool }
 	pre := 8 + rg.Intn(10)
 	for i := 0; i < pre; i++ {
 		ch.Extend()
